@@ -13,6 +13,7 @@ package zzos
 import (
 	"io"
 	"io/fs"
+	realos "os"
 	"path"
 	"strconv"
 	"strings"
@@ -467,6 +468,19 @@ func LookupEnv(string) (string, bool) { return "", false }
 func UserHomeDir() (string, error)    { return "/home/zz", nil }
 func TempDir() string                 { return "/tmp" }
 func Getwd() (string, error)          { return "/", nil }
+
+// Signal, Interrupt, Exit, Args: the parts of package os a command's main file names.
+type Signal = realos.Signal
+
+var (
+	Interrupt = realos.Interrupt
+	Kill      = realos.Kill
+	Args      = []string{"zz"}
+)
+
+type ExitCalled struct{ Code int }
+
+func Exit(code int) { panic(ExitCalled{Code: code}) }
 
 // ---- File ----
 
